@@ -7,8 +7,15 @@
 //! trusted: R15 (deep slices): ChannelMonitor read: for each of the ten length-prefixed collections of the legacy section, the declaration of the length and the range of the `for _ in lo..n` loop that reads the elements, verbatim, as a function of the value read (`Readable::read(reader)?` of the length becomes the parameter); the loop bodies (element decoding, duplicate refusal) and the pre-allocation statement between the two are dropped; machine arithmetic is the verifier's (u64/usize casts checked)
 //! trusted: R15 (deep slices): NetworkGraph read (routing/gossip.rs): the declaration of each of the two counts and the range of the loop that reads that many entries, the counter given to the i-th node, and the value next_node_counter starts from, verbatim as functions of the count read; entry decoding, the capacity computation, the node-count limit and the counter fix-up of the channels are dropped and not claimed
 //! assume: every pending inbound HTLC consumed one counterparty HTLC id: next_counterparty_htlc_id >= pending_inbound_htlcs.len()
+//! trusted: assume_specification for core::cmp::max / core::cmp::min (std definitions): present in every unit so that a change that introduces them is verified instead of being rejected by the tool
 use vstd::prelude::*;
 verus! {
+use vstd::std_specs::cmp::*;
+use core::cmp;
+pub assume_specification<T: core::cmp::Ord>[core::cmp::max::<T>](a: T, b: T) -> (r: T)
+    ensures T::obeys_cmp_spec() ==> r == (if b.cmp_spec(&a) == core::cmp::Ordering::Less { a } else { b });
+pub assume_specification<T: core::cmp::Ord>[core::cmp::min::<T>](a: T, b: T) -> (r: T)
+    ensures T::obeys_cmp_spec() ==> r == (if b.cmp_spec(&a) == core::cmp::Ordering::Less { b } else { a });
 pub enum InboundHTLCState { RemoteAnnounced(u8), AwaitingRemoteRevokeToAnnounce(u8), AwaitingAnnouncedRemoteRevoke(u8), Committed { update_add_htlc: u8 }, LocalRemoved(u8) }
 pub struct InboundHTLCOutput { pub htlc_id: u64, pub state: InboundHTLCState }
 pub struct Ctx { pub pending_inbound_htlcs: Vec<InboundHTLCOutput>, pub next_counterparty_htlc_id: u64 }
@@ -132,10 +139,6 @@ pub mod monitor_read_bounds {
 use vstd::prelude::*;
 use vstd::std_specs::cmp::*;
 use core::cmp;
-pub assume_specification<T: core::cmp::Ord>[core::cmp::max::<T>](a: T, b: T) -> (r: T)
-    ensures T::obeys_cmp_spec() ==> r == (if b.cmp_spec(&a) == core::cmp::Ordering::Less { a } else { b });
-pub assume_specification<T: core::cmp::Ord>[core::cmp::min::<T>](a: T, b: T) -> (r: T)
-    ensures T::obeys_cmp_spec() ==> r == (if b.cmp_spec(&a) == core::cmp::Ordering::Less { b } else { a });
 //@const lightning/src/chain/channelmonitor.rs MAX_ALLOC_SIZE
 //@extract lightning/src/chain/channelmonitor.rs :: impl ReadableArgs for Option :: fn read
 //@slice R15
